@@ -65,7 +65,7 @@ P = {
     "C16": ("Partial by nature: index-safety theorems (flat index < size, network indices < N, reader writes < size); UB/leaks/overflow are runtime facts covered by running "
             "every correspondence under ASan+UBSan(+float-cast-overflow)+LSan+assertions, a file-mutation stream, valgrind memcheck, and the sanitized command-line binary end to end "
             "on shape-correct affinity files with extreme values (found and fixed defect D5).",
-            "Lean 4 proof (index-safety lemmas; partial) + sanitized correspondence, file-mutation stream, valgrind", "7 C16"),
+            "Lean 4 proof (index-safety lemmas and index safety of the translated loop nests; partial for the runtime facts) + sanitized correspondence, file-mutation stream, valgrind", "7 C16"),
     "C17": ("Lean theorem over an arbitrary stream: realization i starts from the i-th consecutive segment, each draw used once, symmetric pairs share a draw, other rows zero; "
             "tie: mt19937/uniform model bit-exact vs libstdc++, realization_start multisets vs an independent reference stream. Second tie (translator): the loop nests of the three initialisers are regenerated from initialization.hpp on every run (a generator call becomes the draw at the current stream position) and proved equal to initRows / initAffFromInitial / initAffRandom incl. the mirrored triangular loop; Solver::run = runAll.",
             "Lean 4 proof (initialisers consume consecutive disjoint stream segments) + rng/start correspondence + initialiser and run code translated from the source proved equal to the model", "7 C17"),
@@ -90,7 +90,7 @@ EXTRA = {
     "C13": " Second tie (translator): main of multitensor.cpp regenerated through a statement table and proved equal to cliMain (cliMainCode_eq); the three writers translated statement by statement at token level and proved equal to writeAffinity / writeMembership / writeInfo, with the line and column where an entry lands (MTProps/CodeWriters). Files with 64-bit labels; histories of invocations in one directory (input replaced in place, same size and time stamp).",
     "C14": " The from-file initialiser also called directly on scripted draws, several calls on one functor object, full tensors with unequal mirrored entries (harness op initf).",
     "C15": " The whole of multitensor_factorization and main of the command line are translated (code_reject). Edge lists of all harness calls live in one set of buffers refilled in place; crashes that need earlier calls are replayed with their shortest history.",
-    "C16": " A third of the valid-input runs hand the in-membership container in other shapes (some with exactly N*K elements), a pre-filled label vector and 1-3 realizations.",
+    "C16": " Code-level index safety (translator): every container access of the loop nests of update_vertices / update_affinity / calculate_likelyhood and of the three initialisers, as they stand in the source on this run, is recorded with its loop conditions and proved in range for all sizes and for the network built from any edge list (MTProps/CodeSafe); the two reader bodies are pinned. A third of the valid-input runs hand the in-membership container in other shapes (some with exactly N*K elements), a pre-filled label vector and 1-3 realizations.",
     "C17": " The initialisers also called directly on a scripted stream of draws (values at and below 1e-6, zero, next to one), several calls on one generator (harness op initf), closed form checked per entry.",
     "C18": " The from-file initialiser as a user of the layout: called 2-3 times on one functor object with a full tensor whose mirrored entries differ; the reader and writers through position-encoding files.",
     "C19": " The statements before and after the dispatch are pinned; when that pin breaks, vlib/pyxsim.py runs the prologue (rewritten to plain Python, numpy stand-in) on 3 files x 16 argument combinations and compares what the guards would see with what the caller passed.",
